@@ -441,6 +441,14 @@ func (m *Machine) chooseCond(conds []*Term, what string) int {
 	if len(feas) == 0 {
 		panic(&abortPath{"infeasible", what})
 	}
+	maxDec := 20000
+	if v, ok := m.cfg.Params["maxdecisions"]; ok {
+		maxDec = v
+	}
+	if len(m.prefix) >= maxDec {
+		m.unwindCut++
+		panic(&abortPath{"unwind", fmt.Sprintf("more than %d symbolic decisions on one path (%s)", maxDec, what)})
+	}
 	base := append([]int(nil), m.prefix...)
 	for _, k := range feas[1:] {
 		m.spawn = append(m.spawn, append(append([]int(nil), base...), k))
@@ -959,6 +967,9 @@ func (m *Machine) runBlock(fr *frame) *ssa.BasicBlock {
 	}
 	for _, ins := range b.Instrs[nphi:] {
 		m.steps++
+		if m.steps&0x3fff == 0 && m.shared != nil && m.shared.overBudget() {
+			panic(&abortPath{"budget", "path or time budget exhausted"})
+		}
 		fr.cur = ins
 		switch x := ins.(type) {
 		case *ssa.If:
